@@ -1074,10 +1074,12 @@ func (r *auRun) doCall(tr http.RoundTripper, slot int, call *auCall, at int, beg
 		bmu.Unlock()
 		return b
 	}
-	method := "GET"
+	// the HTTP method varies with the call (the flow must not depend on it): body-less calls are
+	// GET / HEAD / DELETE, calls with a body PUT / POST / PATCH
+	method := []string{"GET", "HEAD", "GET", "DELETE", "HEAD"}[call.Form%5]
 	var body io.ReadCloser
 	if call.Body != "none" {
-		method = "PUT"
+		method = []string{"PUT", "POST", "PATCH", "PUT", "POST"}[call.Form%5]
 		body = newBody()
 	}
 	hreq, err := http.NewRequestWithContext(ctx, method, "http://"+r.concrete(call.H)+"/v2/a/manifests/latest", body)
